@@ -37,12 +37,8 @@ func obInputsReadOnly(c *rules.Ctx, id string) {
 }
 
 func obFlagGate(c *rules.Ctx, id string) {
-	ob := c.R.Ob(id, "effects/W6", "the experimental-overdraft flag is written once from the flag map and read only by the builtin it gates", 2)
-	c.FieldAccessOnlyIn(ob, relInterp, "programState", "OverdraftFunctionFeatureFlag", true, true, map[string]string{
-		"internal/interpreter.RunProgram": "set once from the feature-flag map",
-		"internal/interpreter.overdraft":  "the gated builtin",
-	})
-	c.ParamOnlyLookedUpWithConst(ob, c.Fn(ob, relInterp, "RunProgram"), 4, "ExperimentalOverdraftFunctionFeatureFlag")
+	ob := c.R.Ob(id, "effects/W6", "the feature-flag map is only looked up with constant keys; the lookup only sets a flag field; the flag field is read only by the implementation of a builtin", 3)
+	c.FlagGate(ob, c.BuildTables(ob))
 }
 
 func obMapRangeOrder(c *rules.Ctx, id string) {
